@@ -248,7 +248,7 @@ def T_tools(ci: int, tool: int, fmt: int, mode: int, f1: bool, f2: bool, f3: boo
 
 def X_lexer_total(v: str) -> int:
     """
-    pre: len(v) <= 1
+    pre: len(v) <= 1 and (XCOND)
     post: _ != 0
     """
     from octave_mcp.core import lexer as lx
@@ -374,7 +374,12 @@ def obligations(tier):
         f.__annotations__ = dict(TF_validate_faults.__annotations__)
         obs.append(xh_ob(PROP, f"TF.validate-tool-never-raises-under-collaborator-faults[profile#{pi}]", f, timeout=900, bound=f"profile spelling #{pi} of 7 x 5 flags x 3 input modes x reader outcome (ok/LexerError/ParserError/RuntimeError) x schema outcomes (none/fields/no fields/OSError) x 0..1 errors x emitter ValueError x compiler KeyError x zones", functions=["mcp.validate.ValidateTool.execute"], stubs=tstubs))
     obs.append(xh_ob(PROP, "TF.write-tool-never-raises-under-collaborator-faults", TF_write_faults, timeout=2400, bound="5 schema arguments x flags x tokenizer/reader/loader/emitter/compiler/hermetic failures x 4 argument modes (content / none / content+changes / changes only); corrections_only", functions=["mcp.write.WriteTool.execute"], stubs=tstubs))
-    obs.append(xh_ob(PROP, "X.lexer-total-on-1-char-strings", X_lexer_total, timeout=900, setup=_setup, stubs=["NFC fragment stub"], bound="all strings of length <= 1 (any character)", functions=["lexer.tokenize", "_normalize_with_fence_detection", "_match_unicode_identifier"]))
+    xparts = [("empty-or-below-0x30", "len(v) == 0 or v[0] < '0'"), ("0x30-0x5f", "len(v) == 1 and '0' <= v[0] < '`'"), ("0x60-0x7f", "len(v) == 1 and '`' <= v[0] < chr(128)"), ("0x80-0x2fff", "len(v) == 1 and chr(128) <= v[0] < chr(0x3000)"), ("0x3000-up", "len(v) == 1 and chr(0x3000) <= v[0]")]
+    for xname, xcond in xparts:
+        f = types.FunctionType(X_lexer_total.__code__, X_lexer_total.__globals__, "X_lexer_total", None, X_lexer_total.__closure__)
+        f.__doc__ = X_lexer_total.__doc__.replace("XCOND", xcond)
+        f.__annotations__ = dict(X_lexer_total.__annotations__)
+        obs.append(xh_ob(PROP, f"X.lexer-total-on-1-char-strings[{xname}]", f, timeout=900, setup=_setup, stubs=["NFC fragment stub"], bound="all strings of length <= 1 whose character lies in this range (the 5 ranges partition all characters; the empty string is in the first)", functions=["lexer.tokenize", "_normalize_with_fence_detection", "_match_unicode_identifier"]))
     if th:
         for cname, chars in _CLASSES + [("letters", None), ("other", None)]:
             rest = cname if chars is None else None
